@@ -154,3 +154,177 @@ Section S5.
     - intros x Hx Hm. apply C; [|exact Hm]. subst init. apply in_map_iff. exists (Z.to_nat x). split; [lia|]. apply in_seq. lia.
   Qed.
 End S5.
+
+(* ---------------------------------------------------------------------------------------------- *)
+(* Scenario 6 of Model/Conc.v (C11): any number of AddBackend calls with ONE name, under EVERY schedule: the name is never
+   listed twice, the calls answered "added" are as many as the name is listed, and once every call has returned exactly one
+   was answered "added" and the others were refused. *)
+Section S6.
+  Definition cnt1 (ts : list (tstate Z)) : Z := sumZ (map (fun st => if Z.eqb (ts_local st) 1 then 1 else 0) ts).
+  Definition wf6 (st : tstate Z) : Prop :=
+    (ts_pc st = Some 0 /\ ts_local st = 0) \/ (ts_pc st = None /\ (ts_local st = 1 \/ ts_local st = 2)).
+  Definition Q6 (s : list Z) (ts : list (tstate Z)) : Prop :=
+    count_id DUP_NAME s = cnt1 ts /\ count_id DUP_NAME s <= 1 /\ Forall wf6 ts
+    /\ (count_id DUP_NAME s = 0 -> Forall (fun st => ts_pc st = Some 0) ts).
+
+  Lemma count_id_nonneg x l : 0 <= count_id x l.
+  Proof. induction l as [|y t IH]; cbn [count_id]; [lia|]. destruct (Z.eqb y x); lia. Qed.
+
+  Lemma memZ_count x l : memZ x l = true <-> 1 <= count_id x l.
+  Proof.
+    induction l as [|y t IH]; cbn [memZ count_id]; [split; [discriminate|lia]|].
+    pose proof (count_id_nonneg x t). rewrite (Z.eqb_sym x y). destruct (Z.eqb y x) eqn:E; cbn [orb]; [split; [lia|reflexivity]|].
+    rewrite IH. split; lia.
+  Qed.
+
+  Lemma count_id_snoc x l : count_id x (l ++ [x]) = count_id x l + 1.
+  Proof. induction l as [|y t IH]; cbn [app count_id]; [rewrite Z.eqb_refl; lia|]. rewrite IH. lia. Qed.
+
+  Lemma cnt1_upd i st st' ts : nth_error ts i = Some st ->
+    cnt1 (nth_upd i (fun _ => st') ts) = cnt1 ts - (if Z.eqb (ts_local st) 1 then 1 else 0) + (if Z.eqb (ts_local st') 1 then 1 else 0).
+  Proof.
+    unfold cnt1. revert i. induction ts as [|a t IH]; intros [|i] H; cbn in H; try discriminate.
+    - injection H as <-. cbn [nth_upd map sumZ]. lia.
+    - cbn [nth_upd map sumZ]. rewrite (IH i H). lia.
+  Qed.
+
+  Lemma Forall_upd {A} (P : A -> Prop) i v l : Forall P l -> P v -> Forall P (nth_upd i (fun _ => v) l).
+  Proof.
+    revert i. induction l as [|a t IH]; intros i Hl Hv; [destruct i; constructor|].
+    inversion Hl; subst. destruct i; cbn [nth_upd]; constructor; auto.
+  Qed.
+
+  Lemma Q6_step n i th st pc s ts :
+    nth_error (repeat add_same n) i = Some th -> nth_error ts i = Some st -> ts_pc st = Some pc -> Q6 s ts ->
+    Q6 (fst (fst (t_step _ _ th s (ts_local st) pc)))
+       (nth_upd i (fun _ => mkTS (snd (fst (t_step _ _ th s (ts_local st) pc))) (snd (t_step _ _ th s (ts_local st) pc))) ts).
+  Proof.
+    intros Hth Hst Hpc (Hc & Hle & Hwf & Hrun).
+    assert (th = add_same) by (apply nth_error_In in Hth; apply repeat_spec in Hth; exact Hth). subst th.
+    assert (Hst_wf : wf6 st) by (eapply Forall_forall in Hwf; [exact Hwf|eapply nth_error_In; exact Hst]).
+    destruct Hst_wf as [[_ Hl0]|[Hn _]]; [|congruence].
+    unfold add_same. cbn [t_step]. destruct (memZ DUP_NAME s) eqn:Em; cbn [fst snd].
+    - apply memZ_count in Em. split; [|split; [exact Hle|split]].
+      + rewrite (cnt1_upd i st _ ts Hst). cbn [ts_local]. rewrite Hl0. cbn. lia.
+      + apply Forall_upd; [exact Hwf|]. right. cbn. auto.
+      + intros H0. lia.
+    - assert (E0 : count_id DUP_NAME s = 0).
+      { pose proof (count_id_nonneg DUP_NAME s). destruct (Z_lt_le_dec (count_id DUP_NAME s) 1); [lia|]. apply memZ_count in l. congruence. }
+      unfold Q6. rewrite !count_id_snoc. split; [|split; [lia|split]].
+      + rewrite (cnt1_upd i st _ ts Hst). cbn [ts_local]. rewrite Hl0. cbn. lia.
+      + apply Forall_upd; [exact Hwf|]. right. cbn. auto.
+      + intros H0. lia.
+  Qed.
+
+  Theorem s6_all_schedules n sched :
+    let ths := repeat add_same n in
+    let ts0 := repeat (mkTS 0 (Some 0)) n in
+    let s := fst (fst (run_sched ths [1; 2] ts0 sched [])) in
+    let ts := snd (fst (run_sched ths [1; 2] ts0 sched [])) in
+    count_id DUP_NAME s <= 1 /\ count_id DUP_NAME s = cnt1 ts
+    /\ ((1 <= n)%nat -> all_done ts = true -> length ts = n ->
+        count_id DUP_NAME s = 1 /\ Forall (fun st => ts_local st = 1 \/ ts_local st = 2) ts).
+  Proof.
+    intros ths ts0 s ts.
+    assert (HQ : Q6 s ts).
+    { apply (run_sched_joint Q6). { intros i th st pc s1 ts1 A B C D. eapply Q6_step; eauto. }
+      split; [|split; [cbn; lia|split]].
+      - cbn. unfold cnt1, ts0. clear. induction n as [|k IH]; cbn; [reflexivity|]. rewrite <- IH. reflexivity.
+      - apply Forall_forall. intros st Hst. apply repeat_spec in Hst. subst st. left. auto.
+      - intros _. apply Forall_forall. intros st Hst. apply repeat_spec in Hst. subst st. reflexivity. }
+    destruct HQ as (Hc & Hle & Hwf & Hrun). split; [exact Hle|]. split; [exact Hc|].
+    intros Hn Hdone Hlen.
+    assert (Hfin : Forall (fun st => ts_pc st = None) ts).
+    { unfold all_done in Hdone. rewrite forallb_forall in Hdone. apply Forall_forall. intros st Hst. specialize (Hdone st Hst).
+      destruct (ts_pc st); [discriminate|reflexivity]. }
+    split.
+    - pose proof (count_id_nonneg DUP_NAME s). destruct (Z.eq_dec (count_id DUP_NAME s) 0) as [E0|]; [|lia].
+      specialize (Hrun E0). destruct ts as [|a t]; [cbn in Hlen; lia|].
+      inversion Hrun; subst. inversion Hfin; subst. congruence.
+    - apply Forall_forall. intros st Hst. pose proof (proj1 (Forall_forall _ _) Hwf st Hst) as [[Hp _]|[_ Hl]]; [|exact Hl].
+      pose proof (proj1 (Forall_forall _ _) Hfin st Hst). congruence.
+  Qed.
+End S6.
+
+(* ---------------------------------------------------------------------------------------------- *)
+(* Scenario 7 of Model/Conc.v (C11): requests choosing their backend while the pool is changed under them (any number of
+   selections, additions of n7 and removals of n1, EVERY schedule): a selection that has returned holds a backend of the
+   deployment - never none: requests arriving during a change are served. *)
+Section S7.
+  Variable kinds : list Z.
+
+  Definition dep (x : Z) : bool := memZ x [1; 2; 3; 7].
+  Definition Pool7 (s : s7st) : Prop := In 2 (s7_pool s) /\ Forall (fun x => dep x = true) (s7_pool s).
+  Definition L7 (st : tstate (list Z * Z)) : Prop :=
+    match ts_pc st with
+    | Some pc => (pc = 0 \/ 100 <= pc < 200 \/ pc = 200) \/ ((pc = 300 \/ pc = 400) /\ dep (snd (ts_local st)) = true)
+    | None => dep (snd (ts_local st)) = true
+    end.
+  Definition Q7 (s : s7st) (ts : list (tstate (list Z * Z))) : Prop :=
+    Pool7 s /\ length ts = length kinds
+    /\ forall i k st, nth_error kinds i = Some k -> nth_error ts i = Some st -> k = 50 -> L7 st.
+
+  Lemma Q7_step i th st pc s ts :
+    nth_error (map s7_thread kinds) i = Some th -> nth_error ts i = Some st -> ts_pc st = Some pc -> Q7 s ts ->
+    Q7 (fst (fst (t_step _ _ th s (ts_local st) pc)))
+       (nth_upd i (fun _ => mkTS (snd (fst (t_step _ _ th s (ts_local st) pc))) (snd (t_step _ _ th s (ts_local st) pc))) ts).
+  Proof.
+    intros Hth Hst Hpc (Hs & Hlen & Hts). apply nth_error_map_some5 in Hth as (k & Hk & ->).
+    assert (Hothers : forall s' v, Pool7 s' -> (k = 50 -> L7 v) -> Q7 s' (nth_upd i (fun _ => v) ts)).
+    { intros s' v Hs' Hv. split; [exact Hs'|]. split; [rewrite nth_upd_length; exact Hlen|].
+      intros j k' st' Hk' Hst' E. destruct (Nat.eq_dec i j) as [<-|Hij].
+      - rewrite (nth_upd_same _ _ _ _ Hst) in Hst'. injection Hst' as <-. rewrite Hk in Hk'. injection Hk' as <-. apply Hv. exact E.
+      - rewrite nth_upd_other in Hst' by exact Hij. apply (Hts j k' st' Hk' Hst' E). }
+    unfold s7_thread. destruct (Z.eqb k 50) eqn:E50.
+    - (* a selection *)
+      apply Z.eqb_eq in E50. pose proof (Hts i k st Hk Hst E50) as Hl. unfold L7 in Hl. rewrite Hpc in Hl.
+      unfold selector. cbn [t_step]. destruct Hs as [H2 Hall].
+      destruct (Z.eqb pc 0) eqn:E0.
+      { destruct (s7_pool s) eqn:Ep; [destruct H2|]. cbn [fst snd]. apply Hothers; [unfold Pool7; rewrite Ep; split; assumption|].
+        intros _. unfold L7. cbn. left. lia. }
+      destruct (pc <? 200) eqn:E2.
+      { cbn [fst snd]. apply Hothers; [split; assumption|]. intros _. unfold L7. cbn [ts_pc]. left.
+        apply Z.eqb_neq in E0. apply Z.ltb_lt in E2.
+        destruct (pc - 100 + 1 <? zlen (fst (ts_local st))); destruct Hl as [[Hl|[Hl|Hl]]|[[Hl|Hl] _]]; lia. }
+      destruct (Z.eqb pc 200) eqn:E200.
+      { destruct (s7_pool s) as [|x0 t0] eqn:Ep; [destruct H2|]. cbn [fst snd].
+        apply Hothers; [unfold Pool7; cbn [s7_pool]; split; assumption|]. intros _. unfold L7. cbn [ts_pc ts_local snd]. right.
+        split; [left; reflexivity|].
+        set (p := x0 :: t0) in *. set (c := s7_ctr s + 1).
+        assert (Hlenp : 0 < zlen p) by (unfold zlen, p; cbn [length]; lia).
+        assert (Hin : In (nth (Z.to_nat (c mod zlen p)) p 0) p).
+        { apply nth_In. pose proof (Z.mod_pos_bound c (zlen p) Hlenp). unfold zlen in *. lia. }
+        exact (proj1 (Forall_forall _ _) Hall _ Hin). }
+      apply Z.eqb_neq in E0, E200. apply Z.ltb_ge in E2.
+      assert (Hd : dep (snd (ts_local st)) = true) by (destruct Hl as [[Hl|[Hl|Hl]]|[_ Hl]]; [lia|lia|lia|exact Hl]).
+      destruct (Z.eqb pc 300) eqn:E300; cbn [fst snd]; (apply Hothers; [split; assumption|]); intros _; unfold L7; cbn [ts_pc ts_local].
+      + right. split; [right; reflexivity|exact Hd].
+      + exact Hd.
+    - (* a writer *)
+      apply Z.eqb_neq in E50. unfold pool_writer. destruct Hs as [H2 Hall]. destruct (Z.eqb k 51); cbn [t_step fst snd].
+      + apply Hothers; [|intros E; contradiction]. split; cbn [s7_pool].
+        * destruct (memZ 7 (s7_pool s)); [exact H2|apply in_or_app; left; exact H2].
+        * destruct (memZ 7 (s7_pool s)); [exact Hall|]. apply Forall_app. split; [exact Hall|constructor; [reflexivity|constructor]].
+      + apply Hothers; [|intros E; contradiction]. split; cbn [s7_pool].
+        * apply rm_swap_keeps; [lia|exact H2].
+        * apply Forall_forall. intros x Hx. apply rm_swap_in in Hx. exact (proj1 (Forall_forall _ _) Hall x Hx).
+  Qed.
+
+  Theorem s7_all_schedules sched :
+    let ths := map s7_thread kinds in
+    let ts0 := map (fun _ : Z => mkTS (([] : list Z), 0) (Some 0)) kinds in
+    let ts := snd (fst (run_sched ths (mkS7 [1; 2; 3] 0) ts0 sched [])) in
+    forall i st, nth_error kinds i = Some 50 -> nth_error ts i = Some st -> ts_pc st = None ->
+      In (snd (ts_local st)) [1; 2; 3; 7].
+  Proof.
+    intros ths ts0 ts i st Hi Hst Hdone.
+    assert (HQ : Q7 (fst (fst (run_sched ths (mkS7 [1; 2; 3] 0) ts0 sched []))) ts).
+    { apply (run_sched_joint Q7). { intros j th st' pc s1 ts1 A B C D. apply Q7_step; assumption. }
+      split; [split; [cbn; auto|cbn; repeat constructor]|]. split; [subst ts0; rewrite map_length; reflexivity|].
+      intros j k st' Hk Hst' _. subst ts0. apply nth_error_map_some5 in Hst' as (k' & _ & ->). unfold L7. cbn. left. left. reflexivity. }
+    destruct HQ as (_ & _ & Hts). specialize (Hts i 50 st Hi Hst eq_refl). unfold L7 in Hts. rewrite Hdone in Hts.
+    unfold dep in Hts. cbn [memZ] in Hts.
+    repeat (match type of Hts with (Z.eqb ?a ?b || _) = true => destruct (Z.eqb_spec a b) as [->|_]; [cbn; auto|cbn [orb] in Hts] end).
+    discriminate.
+  Qed.
+End S7.
